@@ -20,6 +20,11 @@ def make_select(world, real_select):
         if not any(s for _o, s in sims) and not any(_sim_of(world, o) for o in wlist):
             return real_select(rlist, wlist, xlist, timeout)
         world.stats["select_calls"] += 1
+        for o in list(rlist) + list(wlist) + list(xlist):
+            fd = o if isinstance(o, int) else (o.fileno() if hasattr(o, "fileno") else -1)
+            if isinstance(fd, int) and fd >= 1024 and _sim_of(world, o) is not None:
+                # select() cannot watch descriptors at or above FD_SETSIZE (poll / epoll can)
+                raise ValueError("filedescriptor out of range in select()")
         ready_w = [o for o in wlist if _sim_of(world, o) is not None]
         ready_r = []
         waited = False
